@@ -30,9 +30,10 @@ PROP = {
             "files": ["lnwire/c10_test.go"],
             "shards": {"quick": 8, "thorough": 16},
             "fatal_is_violation": True,
-            "floors": {"quick": {"decodes": 1, "accepted": 1, "rejected": 1, "fixpoint_evals": 1,
-                                 "lossless_evals": 1},
-                       "thorough": {"decodes": 1}},
+            "floors": {"quick": {"decodes": 190000, "accepted": 59000, "rejected": 130000, "fixpoint_evals": 59000,
+                                 "lossless_evals": 2280, "alloc_evals": 95000},
+                       "thorough": {"decodes": 11000000, "accepted": 3400000, "rejected": 7600000,
+                                    "fixpoint_evals": 3400000, "lossless_evals": 133000, "alloc_evals": 5500000}},
         },
         {
             "name": "lnwire_race", "pkg": "lnwire", "test": "TestVerifC10Race",
@@ -41,15 +42,17 @@ PROP = {
             "race": {"quick": True, "thorough": True},
             "shards": {"quick": 8, "thorough": 16},
             "fatal_is_violation": True,
-            "floors": {"thorough": {"decodes": 1, "concurrent_batches": 1}},
+            "floors": {"thorough": {"decodes": 200000, "concurrent_batches": 285}},
         },
         {
             "name": "tlv", "module": "tlv", "pkg": ".", "pkgname": "tlv", "test": "TestVerifC10TLV",
             "files": ["tlv/c10tlv_test.go"],
             "shards": {"quick": 4, "thorough": 16},
             "fatal_is_violation": True,
-            "floors": {"quick": {"decodes": 500000, "accepted": 50000, "rejected": 200000, "roundtrip_evals": 25000},
-                       "thorough": {"decodes": 50000000, "accepted": 5000000, "rejected": 20000000}},
+            "floors": {"quick": {"decodes": 470000, "accept_iff_canonical_evals": 470000, "accepted": 190000,
+                                 "rejected": 275000, "roundtrip_evals": 95000, "varint_evals": 2200},
+                       "thorough": {"decodes": 47000000, "accept_iff_canonical_evals": 47000000, "accepted": 19000000,
+                                    "rejected": 27000000, "roundtrip_evals": 9500000, "varint_evals": 220000}},
         },
     ],
 }
